@@ -47,10 +47,11 @@ Definition stream_varint (v : N) : outcome bytes :=
   else if v <? 2 ^ 64 then Ret (xff :: le_encode 8 v)
   else Raise E_STRUCT.
 
-(* parse_satoshi_string: size then f.read(size) — a short read is silent *)
+(* parse_satoshi_string: size then f.read(size) — a short read is silent, but CPython's
+   BytesIO.read(n) raises OverflowError when n > sys.maxsize = 2^63 - 1 *)
 Definition parse_varstr : parser bytes := fun s =>
   match parse_varint s with
-  | Ret (n, r) => Ret (readN n r)
+  | Ret (n, r) => if 9223372036854775808 <=? n then Raise E_OVERFLOW else Ret (readN n r)
   | Raise e => Raise e
   | OutOfFuel => OutOfFuel
   end.
@@ -167,13 +168,17 @@ Proof.
         eexists. split; [reflexivity|]. cbn [app]. f_equal. symmetry. apply n2b_b2n.
 Qed.
 
-Lemma varstr_frame v r : N.of_nat (length v) < 2 ^ 64 ->
+Lemma varstr_frame v r : N.of_nat (length v) < 2 ^ 63 ->
   exists p, stream_varstr v = Ret p /\ parse_varstr (p ++ r) = Ret (v, r).
 Proof.
   intros H. unfold stream_varstr, parse_varstr.
-  destruct (varint_frame (N.of_nat (length v)) (v ++ r) H) as [p [Hs [Hp _]]].
+  change (2 ^ 63) with 9223372036854775808 in H.
+  assert (H64 : N.of_nat (length v) < 2 ^ 64) by (change (2 ^ 64) with 18446744073709551616; lia).
+  destruct (varint_frame (N.of_nat (length v)) (v ++ r) H64) as [p [Hs [Hp _]]].
   rewrite Hs. exists (p ++ v). split; [reflexivity|].
-  rewrite <- app_assoc, Hp, readN_app. reflexivity.
+  rewrite <- app_assoc, Hp.
+  replace (9223372036854775808 <=? N.of_nat (length v)) with false by lia.
+  rewrite readN_app. reflexivity.
 Qed.
 
 (* parsers consume: the rest is a suffix, so fuel = length of input suffices for any count loop *)
